@@ -388,11 +388,16 @@ func (s *Stream) Close() {
 
 	s.inboundFramesInError.Stop()
 
-	if s.rtspStream != nil {
-		s.rtspStream.Close()
+	s.mutex.Lock()
+	rtspStream := s.rtspStream
+	rtspsStream := s.rtspsStream
+	s.mutex.Unlock()
+
+	if rtspStream != nil {
+		rtspStream.Close()
 	}
-	if s.rtspsStream != nil {
-		s.rtspsStream.Close()
+	if rtspsStream != nil {
+		rtspsStream.Close()
 	}
 }
 
